@@ -329,18 +329,15 @@ func (l *linearPalette[T]) ReadFrom(r io.Reader) (n int64, err error) {
 	if size < 0 {
 		return n, errors.New("level: negative palette length")
 	}
-	if int(size) > cap(l.values) {
-		l.values = make([]T, size)
-	} else {
-		l.values = l.values[:size]
-	}
+	// the length comes from the peer: the palette grows as the entries arrive
+	l.values = l.values[:0]
 	for i := 0; i < int(size); i++ {
 		if nn, err := value.ReadFrom(r); err != nil {
 			return n + nn, err
 		} else {
 			n += nn
 		}
-		l.values[i] = T(value)
+		l.values = append(l.values, T(value))
 	}
 	return
 }
@@ -396,18 +393,15 @@ func (h *hashPalette[T]) ReadFrom(r io.Reader) (n int64, err error) {
 	if size < 0 {
 		return n, errors.New("level: negative palette length")
 	}
-	if int(size) > cap(h.values) {
-		h.values = make([]T, size)
-	} else {
-		h.values = h.values[:size]
-	}
+	// the length comes from the peer: the palette grows as the entries arrive
+	h.values = h.values[:0]
 	for i := 0; i < int(size); i++ {
 		if nn, err := value.ReadFrom(r); err != nil {
 			return n + nn, err
 		} else {
 			n += nn
 		}
-		h.values[i] = T(value)
+		h.values = append(h.values, T(value))
 		h.ids[T(value)] = i
 	}
 	return
